@@ -326,7 +326,11 @@ func handleKillEvent(state *internalState, e *executor.Event_Kill) error {
 	activeTask, ok := state.activeTasks[e.GetTaskID()]
 	state.activeTasksMu.RUnlock()
 	if !ok {
-		return errors.New("invalid task ID")
+		// e.g. a repeated KILL, or a KILL crossing the task's own terminal status: nothing to do.
+		// Returning an error here would end eventLoop and disconnect the executor.
+		log.WithField("taskId", e.GetTaskID().Value).
+			Warn("KILL for a task that is not active, ignoring")
+		return nil
 	}
 
 	go func() {
